@@ -94,7 +94,7 @@ fn corpus_case(rng: &mut Rng, small: bool, sel: usize) -> ConnCase {
 
 fn ctl(base: ConnCase) -> CtlCase {
     let end = base_mode(&base);
-    CtlCase { write_err: None, base, cut: None, end, handlers: Handlers::Sequential, fresh: false, vanish_first: 0, vanish_data: vec![], gaps: vec![] }
+    CtlCase { write_err: None, base, cut: None, end, handlers: Handlers::Sequential, fresh: false, vanish_first: 0, vanish_data: vec![], gaps: vec![], events: false }
 }
 
 fn obs_key(o: &Outcome) -> (Vec<String>, Vec<u8>, bool, Vec<String>) {
@@ -291,8 +291,76 @@ pub fn mt_family(id0: usize, rng: &mut Rng, out: &mut Vec<String>) {
     };
     let hs = format!("{:?}", c.handlers).replace(' ', "");
     let cfg = Config { p_stay: *rng.pick(&[0u64, 300, 700]), ..default_cfg(rng) };
+    c.events = true;
     let o = execute(&c, &cfg);
     out.push(line_of(id0, &c, &o, &format!("i_fam=mt handlers={}", hs)));
+}
+
+/// C01 / C09 / C11 together: pipelines mixing requests without body, with buffered, streamed
+/// (large, chunked, Expect: 100-continue) bodies, HTTP/2.0 requests (answered by the connection
+/// thread) and a malformed tail, every delivered request on its own handler thread with its own
+/// delay.  The handlers' event sequence is replayed on `Lts.Par`.
+pub fn par_family(id0: usize, rng: &mut Rng, out: &mut Vec<String>) {
+    let n = rng.range(2, 6);
+    let mut reqs = vec![];
+    let mut script = vec![];
+    let mut k = 0;
+    for i in 0..n {
+        let kind = rng.below(8);
+        if kind == 7 {
+            reqs.push(g::AReq::bad("e505", g::BAD_505[rng.below(g::BAD_505.len())].to_vec()));
+            continue;
+        }
+        let mut r = g::AReq::get(&format!("/par{}", i));
+        let mut blen = 0;
+        match kind {
+            0 | 1 => {}
+            2 => {
+                blen = *rng.pick(&[3usize, 700, 1024]);
+                g::set_body(rng, &mut r, g::Framing::Len, blen);
+                r.method = "POST".into();
+            }
+            3 | 4 => {
+                blen = *rng.pick(&[1025usize, 1500, 3000]);
+                let f = if rng.chance(1, 2) { g::Framing::Chunked } else { g::Framing::Len };
+                g::set_body(rng, &mut r, f, blen);
+                r.method = "PUT".into();
+            }
+            5 => {
+                blen = *rng.pick(&[5usize, 900]);
+                r.hdrs.push(("Expect".into(), "100-continue".into()));
+                r.expect100 = true;
+                g::set_body(rng, &mut r, g::Framing::Len, blen);
+                r.method = "POST".into();
+            }
+            _ => {
+                r.method = "HEAD".into();
+            }
+        }
+        reqs.push(r);
+        let mut a = g::rich_action(k, rng, blen, true);
+        if rng.chance(1, 4) {
+            if let Finish::Respond(ref mut rs) = a.fin {
+                let big: Vec<u8> = (0..*rng.pick(&[1500usize, 5000])).map(|j| b'a' + ((i + j) % 26) as u8).collect();
+                rs.pieces = big.chunks(*rng.pick(&[500usize, 1024, 4096])).map(|c| c.to_vec()).collect();
+                rs.declared = if rng.chance(1, 2) { Some(big.len()) } else { None };
+            }
+        }
+        script.push(a);
+        k += 1;
+    }
+    if rng.chance(1, 4) {
+        reqs.push(g::AReq::bad("e400", g::BAD_400[rng.below(g::BAD_400.len())].to_vec()));
+    }
+    let mut base = g::assemble_pub(rng, &reqs, script);
+    no_panic_script(&mut base);
+    let mut c = ctl(base);
+    let m = c.base.script.len();
+    c.handlers = Handlers::Threads((0..m).map(|_| *rng.pick(&[0u64, 0, 5, 50, 500, 5000])).collect());
+    c.events = true;
+    let cfg = Config { p_stay: *rng.pick(&[0u64, 300, 700]), ..default_cfg(rng) };
+    let o = execute(&c, &cfg);
+    out.push(line_of(id0, &c, &o, "i_fam=par"));
 }
 
 /// C11: pipelines whose requests must all become available while none has been answered; and a
